@@ -102,6 +102,24 @@ CHECKS = {
                      "twins compare scheduler-call traces, status counters and the reported best configuration.",
                 note="Bounded as C03-C05 (W<=3, T<=5, listed rung/bracket systems); near-tie branches pruned and counted as the property allows.",
                 technique="explicit-state model checking of a product (twin) system: BFS over joint event histories with an equality oracle"),
+    "C11": dict(engine="schedx", category="model_checking", design_ref="§2 C11",
+                text="Seeded twins: every event history (BFS, dedup on the joint state) on two schedulers built with equal arguments, where "
+                     "before every call to the second both global generators are re-seeded and consumed and an independent third scheduler "
+                     "object makes a call; outputs must be identical (bracket sampling left to the scheduler's own generator here). The "
+                     "explorations' observation traces and the result tables of simulated experiments are recomputed in two fresh processes "
+                     "with different PYTHONHASHSEED and compared.",
+                note="Bounded as C03-C05 plus PBT/DEHB/median/REA/FIFO/GP(random phase); MOASHA takes no random_seed (outside the quantifier); "
+                     "GP searchers with a fitted surrogate only as fresh-process twins.",
+                technique="explicit-state model checking of a product (twin) system under adversarial global-RNG perturbation, plus fresh-process differential replay"),
+    "C09": dict(engine="enumx", category="exploration", design_ref="§2 C09",
+                text="Bounded-exhaustive enumeration of a finite lattice of GP model configurations, data sets, parameter points, acquisition "
+                     "heads and inputs; every gradient coordinate returned by the scipy fitting objective and by compute_acq_with_gradient "
+                     "is compared with a Richardson-extrapolated central difference of the value returned alone, plus value consistency "
+                     "and mpmath closed forms for EI/EIpu/CEI.",
+                note="Decided on the lattice only (n<=4(+5), d<=2, Matern52+-ARD, mean zero/scalar, identity/Box-Cox, two encodings, fantasies "
+                     "{1,3}, 7 heads, inputs {0.2,0.5,0.8}^d). Tolerance 1e-5*max(scale,|g|) + 4x the Richardson error estimate; unresolved "
+                     "difference quotients (~1%) and jitter>0 points are counted separately; no MCMC.",
+                technique="bounded-exhaustive enumeration of a finite lattice with a numerical-differentiation oracle (no sampling)"),
 }
 
 NOT_YET = {}
